@@ -40,6 +40,7 @@ func hC02seq(n, prefix, L, vlen int) {
 	reopen := func(tag string) bool {
 		vAssert(db.Close() == nil, tag+".close")
 		vAssert(!vExists(sub, lockName), tag+".lock-released")
+		vAssert(fs.VerifOpenHandles() == 0, tag+".no-open-handles-after-close")
 		db, err = Open(dir, opts)
 		vAssert(err == nil, tag+".reopen")
 		if err != nil {
@@ -187,4 +188,41 @@ func H_C02_seed() {
 	vAssert(db2.hashSeed == seed, "C02s.hash-seed-survives-clean-restart")
 	checkReads(db2, r, "C02s.contents")
 	vCover("C02s.done")
+}
+
+// H_C02_closeerr: one write issued by Close (data, bucket or metadata payload;
+// symbolic choice which) fails with an I/O error. Either Close reports an error,
+// or it returns nil - and then the next Open must succeed with the same contents.
+func H_C02_closeerr() {
+	n := 2
+	vlen := 2
+	rec := 10 + 8 + vlen
+	efs := &errFS{inner: fs.Mem, failWrite: true}
+	dir := "c02e"
+	db, err := Open(dir, smallOpts(efs, 2, rec))
+	vAssert(err == nil, "C02e.open")
+	if err != nil {
+		return
+	}
+	r := newRef(n, 8)
+	for _, k := range []int{0, 1, 0} {
+		applyOp(db, r, 0, k, vlen, "C02e.prefix")
+	}
+	efs.armed = true
+	cerr := db.Close()
+	efs.armed = false
+	if cerr != nil {
+		vCover("C02e.close-reported-the-write-error")
+		return
+	}
+	if efs.injected {
+		vCover("C02e.close-returned-nil-although-a-write-failed")
+	}
+	db2, err := Open(dir, smallOpts(fs.Mem, 2, rec))
+	vAssert(err == nil, "C02e.reopen-after-successful-close")
+	if err != nil {
+		return
+	}
+	checkReads(db2, r, "C02e.contents")
+	vCover("C02e.done")
 }
